@@ -211,7 +211,7 @@ class Spec:
             due = self.b2s(k, key)
             if now < due and c['tempo'] is None:
                 return self.bad(i, f'task {task} awakened at {fr(now)} before its time {fr(due)}', f'c08:early:{kind}')
-            if c['tempo'] is not None and self.s2b(k, now) < key and not c.get('tempo_changed_in_line') == i:
+            if c['tempo'] is not None and self.s2b(k, now) < key:
                 return self.bad(i, f'task {task} awakened at beat {fr(self.s2b(k, now))} before beat {fr(key)}',
                                 'c08:early:tempo')
             want_secs = due
@@ -276,7 +276,7 @@ class Check(common.Check):
     LEAN_DIRS = ['Sc3Verif/C08']
     THEOREMS = ['Sc3Verif.C08.' + t for t in (
         'reach_inv', 'trace_ok', 'wake_exactly_once', 'awake_once_and_not_if_cancelled', 'awake_only_pending',
-        'order_by_time_fifo', 'never_early', 'no_lost_wakeup', 'sched_ahead_of_sleeping_head_notifies',
+        'order_by_time_fifo', 'never_early', 'never_early_current_tempo', 'no_lost_wakeup', 'sched_ahead_of_sleeping_head_notifies',
         'on_time', 'resched_relative_to_sched_time', 'clear_cancels_all', 'stop_cancels_all',
         'exited_is_final', 'cancelled_never_awakened', 'exception_isolated', 'tempo_change_reevaluates',
         'areach_inv', 'app_trace_ok', 'app_wake_exactly_once', 'app_never_early', 'app_no_lost_wakeup',
@@ -390,8 +390,26 @@ class Check(common.Check):
         lines += ['fin', 'fin', 'fin', 'cont a', f'run {BIG} 0', 'dump']
         return lines
 
+    def gen_tempo_batch(self, G):
+        """a late TempoClock batch in which an earlier task changes the tempo while later ones are due"""
+        rate = G.choice([Fr(2), Fr(4)])
+        slow = G.choice([Fr(1, 2), Fr(1), Fr(1, 2)])
+        k1 = Fr(G.randint(1, 4), 8)
+        n = G.randint(1, 3)
+        lines = [f'task 0 {G.choice("FR")} t0:T:{fr(slow)} ' + G.choice(['d', 'r:1/4', 'x'])]
+        for i in range(1, n + 1):
+            lines.append(f'task {i} {G.choice("FR")} ' + G.choice(['d', 'r:1/8', 'r:1 | d']))
+        lines.append(f'new 0 {fr(rate)}')
+        lines.append(f'op m t0 s {fr(k1)} 0')
+        for i in range(1, n + 1):
+            lines.append(f'op {G.choice("mo")} t0 s {fr(k1 + Fr(G.randint(1, 12), 8))} {i}')
+        late = G.choice([Fr(1, 4), Fr(1, 2), Fr(2)])
+        lines.append(G.choice([f'run 1 {fr(late)}', f'wake t0 t {fr(late)}', f'adv {fr(late)}']))
+        lines += [f'run 3 0', 'fin', 'cont a', f'run {BIG} 0', 'dump']
+        return lines
+
     def gen(self, rng, n):
-        return [self.gen_one(rng) for _ in range(n)]
+        return [self.gen_tempo_batch(rng) if rng.random() < 0.08 else self.gen_one(rng) for _ in range(n)]
 
     # ---- runners ---------------------------------------------------------------------------
     def impl(self, cases):
